@@ -28,6 +28,44 @@ def load_conditions():
     return mod
 
 
+ENUM_SCRIPT = r"""
+import importlib.util, itertools, sys
+spec = importlib.util.spec_from_file_location('c18_conditions', sys.argv[1])
+mod = importlib.util.module_from_spec(spec); spec.loader.exec_module(mod)
+name = sys.argv[2]
+fn = getattr(mod, name)
+import inspect
+params = list(inspect.signature(fn).parameters.values())
+doms = []
+for p in params:
+    if p.annotation is int:
+        doms.append([0, 1, 2])
+    elif p.annotation is mod.StateId:
+        doms.append(list(mod.StateId))
+    else:
+        sys.exit(3)
+calls = []
+for combo in itertools.product(*doms):
+    calls.append(f"{name}({', '.join(repr(c) if not isinstance(c, mod.StateId) else 'StateId.' + c.name for c in combo)})")
+    try:
+        ok = fn(*combo)
+    except Exception as ex:
+        ok = False
+    if ok is not True:
+        print('\n'.join(calls)); sys.exit(1)
+sys.exit(0)
+"""
+
+
+def enumerate_condition(name):
+    """Run a condition over its (finite) argument space in ONE fresh interpreter; returns the list of calls up to and
+    including the first failing one, or None."""
+    r = subprocess.run([sys.executable, "-c", ENUM_SCRIPT, COND, name], capture_output=True, text=True, cwd=REPO, timeout=600)
+    if r.returncode == 1:
+        return [l for l in r.stdout.splitlines() if l.startswith(name)]
+    return None
+
+
 def crosshair_task(tier, seed):
     part = Part()
     part.program("formak.ui_state_machine")
@@ -77,7 +115,14 @@ def crosshair_task(tier, seed):
                     path = write_replay(PID, {"key": f"workflow/{n}", "info": {"kind": "crosshair", "condition": n, "call": call}, "inputs": {}, "result": repr(val)})
                     part.violation(f"workflow/{n}", f"{n} fails for {call} (returns {val!r})", path)
                 else:
-                    part.d["inconclusive"].append(f"crosshair {n}: counterexample {call} does not reproduce")
+                    # the failure may depend on what was executed before (state kept between calls): enumerate the
+                    # condition's finite argument space in one fresh interpreter and report the first failing call
+                    hist = enumerate_condition(n)
+                    if hist is not None:
+                        path = write_replay(PID, {"key": f"workflow/{n}", "info": {"kind": "crosshair-sequence", "condition": n}, "inputs": {}, "calls": hist})
+                        part.violation(f"workflow/{n}", f"{n} fails for {hist[-1]} after the calls {hist[:-1]} in the same process (state carried between calls)", path)
+                    else:
+                        part.d["inconclusive"].append(f"crosshair {n}: counterexample {call} does not reproduce")
             elif kind == "error":
                 # an exception escaping the condition: replay
                 m2 = re.match(r"(\w+): (.*) when calling (.*)$", msg)
@@ -113,7 +158,7 @@ def crosshair_task(tier, seed):
 # ------------------------------------------------------------------------------------------- grid clause
 
 
-def grid_task(grid_keys, tier, seed):
+def grid_task(grid_keys, tier, seed, single=None):
     """GridSearchCV replaced by its contract: picks an ARBITRARY point of param_grid (forked index per key),
     set_params(**point) on a clone, exposes it as best_estimator_."""
     part = Part()
@@ -130,6 +175,8 @@ def grid_task(grid_keys, tier, seed):
         "max_dt_sec": [0.05, 0.25],
         "common_subexpression_elimination": [False, True],
     }
+    for k_, v_ in (single or {}).items():
+        space_all[k_] = list(v_)
     base_space = {
         "process_noise": [p.sympy_process_noise()],
         "sensor_models": [p.sympy_sensors()],
@@ -179,7 +226,7 @@ def grid_task(grid_keys, tier, seed):
 
     leaves = explore(harness, config={"prune": False})
     part.leaves(leaves)
-    key_base = "grid/" + "+".join(grid_keys or ["defaults-only"])
+    key_base = "grid/" + "+".join(grid_keys or ["defaults-only"]) + ("/single:" + ",".join(f"{k_}={v_}" for k_, v_ in single.items()) if single else "")
     defaults = python.Config()
     points = set()
     for l in leaves:
@@ -192,7 +239,12 @@ def grid_task(grid_keys, tier, seed):
         ok = True
         why = []
         for k_ in space_all:
-            want = point[k_] if k_ in grid_keys else getattr(defaults, k_)
+            if k_ in grid_keys:
+                # a single-valued entry may legitimately not be handed to the search at all: its value is still "selected"
+                want = point[k_] if k_ in point else space_all[k_][0]
+                point.setdefault(k_, want)
+            else:
+                want = getattr(defaults, k_)
             got = getattr(cfg, k_)
             if got != want or type(got) is not type(want) and not (isinstance(got, (int, float)) and isinstance(want, (int, float))):
                 ok = False
@@ -221,6 +273,9 @@ def _dispatch(fn, args):
 def run(tier, seed):
     rep = Report(PID, tier, seed, "other")
     tasks = [(crosshair_task, (tier, seed)), (grid_task, ((), tier, seed)), (grid_task, (("innovation_filtering",), tier, seed)), (grid_task, (("max_dt_sec", "common_subexpression_elimination"), tier, seed))]
+    # single-valued grids (one of them: filtering explicitly disabled)
+    tasks.append((grid_task, (("innovation_filtering", "max_dt_sec"), tier, seed, {"innovation_filtering": [None], "max_dt_sec": [0.25]})))
+    tasks.append((grid_task, (("innovation_filtering", "common_subexpression_elimination"), tier, seed, {"innovation_filtering": [0.0], "common_subexpression_elimination": [False]})))
     if tier != "quick":
         tasks.append((grid_task, (("innovation_filtering", "max_dt_sec", "common_subexpression_elimination"), tier, seed)))
         tasks.append((grid_task, (("max_dt_sec",), tier, seed)))
@@ -240,6 +295,11 @@ def replay(path):
     with open(path) as f:
         r = json.load(f)
     info = r["info"]
+    if info["kind"] == "crosshair-sequence":
+        hist = enumerate_condition(info["condition"])
+        print(hist)
+        print("REPRODUCED" if hist else "not reproduced")
+        return 1 if hist else 0
     if info["kind"] == "crosshair":
         mod = load_conditions()
         try:
